@@ -33,7 +33,7 @@ def run_script(exe, ops, cwd, timeout=120, env=None):
     sp = os.path.join(cwd, "script.tsv")
     with open(sp, "w", errors="surrogateescape") as f:
         for op in ops:
-            f.write("\t".join(esc(x) if isinstance(x, str) or x is None else str(x) for x in op) + "\n")
+            f.write(("\t".join(esc(x) if isinstance(x, str) or x is None else str(x) for x in op) if len(op) > 1 or op[0] not in ("resume", "iffail_skip") else op[0]) + "\n")
     rc, out, err = vlib.sh([exe, sp], cwd=cwd, timeout=timeout, env=env)
     res = [None] * len(ops)
     for line in out.split("\n"):
